@@ -12,7 +12,7 @@ import vlib
 
 LEVEL_TEXT = ('partial. Lean 4 theorems about the deterministic wrappers around an uninterpreted sampler: Poisson shot noise is a '
               'non-negative integer; both shot-noise methods reject exactly the frames with a negative or an unrepresentably large count; '
-              'the guard tests of shot_noise (the except-ValueError chain of the Poisson branch, the tests before the Gaussian draw: reduction np.min/np.max, comparison, literal bound 9.223372006484771e18) are REGENERATED (Gen/ShotDark.lean) and proved to refuse exactly the frames the model refuses (shot_guards_follow_source, shot_guard_bound_value), and the driver cross-checks them on every shot case; read noise is additive and signal-independent; the dark frame is the floor of the regenerated source expression rate*ones(shape)*fpn with the draw, or 1, as pattern (dark_follows_source; the test fpn_factor > 0 and the lognormal(mean=1.0, sigma=fpn_factor, size=shape) call are checked forms: any other shape is a refusal); a dark frame without pattern noise is floor(rate); a power-spectrum '
+              'the guard tests of shot_noise (the except-ValueError chain of the Poisson branch, the tests before the Gaussian draw: reduction np.min/np.max, comparison, literal bound 9.223372006484771e18) are REGENERATED (Gen/ShotDark.lean) and proved to refuse exactly the frames the model refuses (shot_guards_follow_source, shot_guard_bound_value), and the driver cross-checks them on every shot case; read noise is additive and signal-independent, the model being the REGENERATED source line img + rng.normal(loc=0.0, scale=electrons, size=img.shape) with the draw written loc + scale*z (Gen/ShotDark.lean readNoiseFrame, read_noise_follows_source); the dark frame is the floor of the regenerated source expression rate*ones(shape)*fpn with the draw, or 1, as pattern (dark_follows_source; the test fpn_factor > 0 and the lognormal(mean=1.0, sigma=fpn_factor, size=shape) call are checked forms: any other shape is a refusal); a dark frame without pattern noise is floor(rate); a power-spectrum '
               'surface is zero outside its mask with mean square exactly rms^2 over its non-zero pixels for every mask shape; '
               'the accumulation of non-negative ray deposits is non-negative, bounded by the total deposited charge, zero where no ray deposits and zero everywhere without rays (cosmic_frame_support, cosmic_frame_bounded; tie to cosmic_rays sampled); the Rule-07 frame without pattern noise is the floor of the regenerated rate; power_spectrum grid/filter/noise shapes and per-axis frequency normalisation as the source builds them (regenerated PINS: theorems about generated text that the numeric model does not consume), its mask-and-normalise tail regenerated AND consumed by the model, the result being independent of any positive rescaling of the filtered noise (power_spectrum_invariant_under_noise_scale); every function with a parameter named seed (filter on the signature) builds its generator as default_rng(seed) with the bare parameter (or hands seed on unchanged: rule07 -> dark_current) '
               'and touches no global generator, cache or module global: read off the source on every run (effect table with generator argument and seed-forwarding call sites). '
